@@ -3,6 +3,7 @@ import ApolloModel.Proofs.AstText7
 import ApolloModel.Proofs.AstText8
 import ApolloModel.Proofs.AstText12
 import ApolloModel.Proofs.AstParseWf
+import ApolloModel.Proofs.FromCst
 /-
 C08 — AST serialization round-trips.
 
@@ -263,5 +264,25 @@ example : sigToks (Apollo.Lex.lex none (serializeDocument (some "  ".toList) 1 e
     = some (toksOf (cDocument (outputEmptyAtStart (some "  ".toList) 1) exampleDoc2)) := by
   have h := noNumbers_hyps (docSegs (some "  ".toList) 1 exampleDoc2) (by decide)
   exact text_lexes_back_full _ _ _ (by intro p hp; cases hp; decide) h.1 h.2.1 h.2.2
+
+/-! ### growth: the CST → AST conversion has a model (Model/FromCst.lean), tied by the stream `c08.fromcst`
+
+The reference parser `pDocument` (tokens → AST) and the pipeline CST parser model → `FromCst.fromCst` are two
+independent models of `ast::Document::parse`.  Both are tied to the real parser + from_cst.rs on every
+generated document (`c08.ast` for the former on error-free documents; `c08.fromcst` for the latter on valid AND
+erroneous inputs, with every Name's location).  That they agree with each other is kernel-evaluated below on
+documents covering the definition kinds; the general statement
+`∀ src, errors = [] → fromCst (parse src) = pDocument (tokens src)` is NOT proved (it needs the shape of the
+tree built by every grammar function of the parser model, which only the type entry point has so far). -/
+def from_cst_agrees_with_reference_parser : Prop :=
+  ∀ (src : String), (Apollo.Parse.parse .document none 500 src.toList).errors = [] → FromCst.modelsAgree src = true
+
+theorem from_cst_agrees_witness_executable :
+    FromCst.modelsAgree "query Q($v: [Int!]! = [1] @d) @e { a: b(x: {k: \"s\", l: [1.5, true, null, E, $v]}) @f { ...F ... on T { c } } } fragment F on T @d { x }" = true := by
+  decide +kernel
+
+theorem from_cst_agrees_witness_type_system :
+    FromCst.modelsAgree "\"\"\"d\"\"\" type T implements I & J @d { \"x\" f(a: Int = 1 @d): [T!]! @d } extend union U = A | B interface I { a: Int } enum E @d { \"v\" A B @d } input N { a: [Int] = [1] } scalar S @d directive @d(a: Int) repeatable on FIELD | OBJECT schema @d { query: T mutation: T } extend schema { subscription: T } extend type T { g: Int } extend enum E { C } extend input N { b: Int } extend scalar S @e extend interface I @d" = true := by
+  decide +kernel
 
 end Apollo.C08
